@@ -130,10 +130,10 @@ def leaf_obs_in_space(
     elif grp == "acl":
         assume(kind == "routed")
         acl = nodes["router_1"]["acl"]["acl"]
-        ips = [None, "192.168.1.2", "10.9.9.9"]
+        ips = [None, "192.168.1.2", "10.9.9.9", "10.0.0.1"]  # None, first listed, unlisted, last listed
         ports = [None, 80, 53, 0, 8080]
         protos = [None, "tcp", "udp", "icmp", "none"]
-        wcs = [None, "0.0.0.1", "0.0.0.255"]
+        wcs = [None, "0.0.0.1", "0.0.0.3", "0.9.9.9"]  # None, first listed, last listed, unlisted
         # src/dst share the address and wildcard choice, protocol and ports share one index (5 values each): every
         # listed/unlisted/None value of every field is still visited, without the full product
         assume(all_of(rng(e4, 0, 0), rng(e5, 0, 0), rng(k2, 0, 0), rng(k3, 0, 0)))
@@ -308,7 +308,8 @@ def traffic_fp_replay(traffic: float = 0.0, speed: float = 100.0, bw: float = 10
 HARNESSES = {
     "leaf_obs_in_space": {
         "fn": leaf_obs_in_space,
-        "quick": [{"fixed": {"g": gi, "kind": "routed", "nmne": True}, "timeout": 280} for gi in range(len(GROUPS))]
+        "quick": [{"fixed": {"g": gi, "kind": "routed", "nmne": True}, "timeout": 280} for gi in range(len(GROUPS)) if gi != 3]
+        + [{"fixed": {"g": 3, "kind": "routed", "nmne": True, "b1": b}, "timeout": 400} for b in (False, True)]
         + [{"fixed": {"g": 2, "kind": "switched", "nmne": False}, "timeout": 200}]
         # observation configs that list more / fewer components than the num_* sizes (truncated / padded by the real code)
         + [{"fixed": {"g": gi, "kind": "switched", "nmne": True, "variant": v}, "timeout": 280} for v in ("surplus", "padded") for gi in (0, 1, 5)],
